@@ -116,6 +116,13 @@ class C01(Prop):
             out.append({'steps': [{'src': "/%s/ = 'x'\nabc" % rx_, 'reset': True, 'callback': True}]})
             out.append({'steps': [{'src': "{m} = 'x'\n{m=%s}text {m!%s}" % (rx_.replace('}', '\\}'), rx_.replace('}', '\\}')), 'reset': True,
                                    'callback': True}]})
+        # an API option element may name anything: every global of the options module, then something to report
+        for name in ['callback', 'safeMode', 'htmlReplacement', 'reset', 'init', 'panic', 'errorCallback', 'setOption', 'updateFrom',
+                     'document', 'utils', 'Callback', 'RenderOptions', 'isSafeModeNz', 'htmlSafeModeFilter', '__name__', '__dict__']:
+            for val in ['log', 'true', '0', '']:
+                out.append({'steps': [{'src': ".%s = '%s'\n\n{undefined-macro} x\n\n.safeMode = '99'\n\n```\nunterminated" % (name, val),
+                                       'reset': True, 'callback': True},
+                                      {'src': '{undefined-too}', 'callback': True}]})
         for hr in ['\x00', 'a\x01b', '\x02']:
             out.append({'steps': [{'src': "{m} = '$$1'\n{m|<b>} <i>", 'safeMode': 10, 'htmlReplacement': hr, 'reset': True,
                                    'callback': True}]})
@@ -195,6 +202,22 @@ class C03(Prop):
             if rng.random() < 0.15:
                 # a trusted render at safe mode 0 that changes no definition but leaves Block Attributes pending
                 steps.append({'src': gen.words(rng) + '\n\n' + rng.choice(self.PENDING), 'safeMode': 0, 'callback': True, 'trusted': True})
+            if rng.random() < 0.12:
+                # cooperating pieces: a macro whose value carries white space and an attribute name or a quote (defined by a
+                # trusted render, or by the source itself where bit 8 allows it), pending Block Attributes, and an element
+                # that expands the macro inside a quoted attribute value of the tag the attributes are merged into
+                val = rng.choice(['h style=', 'h class=', 'h id=', 'x" onerror="y', "h style='", 'h  STYLE=', 'a b', 'p?q style='])
+                pend = rng.choice(['."a onerror=alert(1) b"', '.k1 k2', '.#i7', '.k "c:d"', '."x:y" [title="t"]'])
+                elem = rng.choice(['<image:{u}|cap>', '<image:{u}>', '<image:pic.png|{u}>', '# head {u}', '<<#{u}>>'])
+                m2 = rng.choice([9, 10, 11, 1, 2, 3])
+                defn = "{u} = '%s'" % val
+                if m2 in (9, 10, 11) and rng.random() < 0.5:
+                    steps.append({'src': '%s\n\n%s\n%s' % (defn, pend, elem), 'safeMode': m2, 'callback': True})
+                else:
+                    steps.append({'src': defn, 'safeMode': 0, 'callback': True, 'trusted': True})
+                    steps.append({'src': '%s\n%s' % (pend, elem), 'safeMode': m2, 'callback': True})
+                yield {'steps': steps}
+                continue
             for i in range(rng.choice([1, 1, 1, 2, 3])):
                 st = {'src': hostile_source(rng, ctx.repo), 'safeMode': mode if i == 0 or rng.random() < 0.5 else rng.choice(NONZERO_POLICY_MODES),
                       'callback': True}
@@ -262,6 +285,14 @@ class C04(Prop):
                 lines.append('..\n' + gen.definition_line(rng) + '\n..')
             if rng.random() < 0.3:
                 lines.append('- item\n' + gen.definition_line(rng))
+            for _ in range(rng.choice([0, 0, 1, 2])):
+                # block options (alone and in pairs) on every kind of delimited block: they act on that one block and must
+                # leave its definition as it was
+                opt = ' '.join(rng.sample(['+container', '-container', '+skip', '-skip', '+macros', '-macros', '+spans', '-spans',
+                                           '+specials', '-specials'], rng.choice([1, 1, 2])))
+                blockk = rng.choice(['``\ncode *x*\n``', '..\ndiv *x*\n..', '""\nquote *x*\n""', 'para *x*', '  indented *x*',
+                                     '> qp *x*', '/*\ncomment\n*/', '<div>html</div>', '--\ncode\n--'])
+                lines.insert(rng.randrange(len(lines) + 1), '\n.%s\n%s\n' % (opt, blockk))
             mode = rng.choice([m for m in range(1, 16)])
             yield {'preamble': pre, 'untrusted': {'src': clean('\n'.join(lines)), 'safeMode': mode, 'callback': True},
                    'probe': {'src': clean(gen.document(rng, 1, 2)), 'safeMode': rng.choice([0, mode]), 'callback': True}}
@@ -448,6 +479,22 @@ class C06(Prop):
                     lines.insert(rng.randrange(len(lines) + 1), rng.choice(uses))
                 yield {'steps': [{'src': "{q} = '$$1'\n{q2} = '$$2 and $1'\n\n" + '\n\n'.join(lines), 'safeMode': 0, 'reset': True,
                                   'callback': True}]}
+            elif k < 0.15:
+                # block options that a safe mode accepts, pending (across line blocks, list items, a call boundary) for a
+                # container or text block whose content holds unpaired HTML: whatever processing the options select, the policy
+                # must still see the HTML
+                opt = ' '.join(rng.sample(['-container', '+container', '-macros', '+macros', '-spans', '+spans', '+specials', '-skip'],
+                                          rng.randint(1, 2)))
+                block = rng.choice(['..\n<b>bold and <i>unclosed\n..', '""\n</div><u>x\n""', '``\n<b>\n``', 'para <b>x *e', '> q <i> _y',
+                                    '  ind <b>', '- item <b>\n\n  ..\n  <i>in\n  ..', '>>\n<b>q\n>>', '..\n- <b>li\n..'])
+                between = rng.choice(['', '', '# Head\n\n', '- it\n\n\n', '// c\n'])
+                mode = rng.choice([1, 2, 3, 9, 10, 11])
+                if rng.random() < 0.3:
+                    yield {'steps': [{'src': 'intro\n\n.' + opt, 'safeMode': mode, 'reset': True, 'callback': True},
+                                     {'src': between + block + '\n\nafter', 'callback': True}]}
+                else:
+                    yield {'steps': [{'src': 'intro\n\n.%s\n%s%s\n\nafter' % (opt, between, block), 'safeMode': mode, 'reset': True,
+                                      'callback': True}]}
             elif k < 0.35:
                 yield {'steps': [{'src': strip_lt(src), 'safeMode': 0, 'reset': True, 'callback': True}]}
             elif k < 0.5:
@@ -469,30 +516,30 @@ class C06(Prop):
     def execute(self, case, ctx, res):
         outs_i, outs_m, ok = run_session(ctx, case['steps'], res, case)
         st = case['steps'][0]
-        a = outs_i[0]
-        if a[0] != 'ok':
-            res.count('not_ok_' + a[0])
-            return
-        res.oracle_checks += 1
-        repl = st.get('htmlReplacement') or DEFAULT_REPLACEMENT
-        strict = st['safeMode'] != 0
-        toks, err = htmlcheck.tokenize(a[1], repl if strict else None, strict=False)
-        if err:
-            res.violation('output does not tokenise: ' + err, case, short(a[1], 600))
-            return
-        err = htmlcheck.balanced(toks)
-        if err:
-            res.violation('unbalanced markup: ' + err, case, short(a[1], 800))
-            return
-        depth = mx = 0
-        for t in toks:
-            if t[0] == 'open' and t[1] not in htmlcheck.VOID:
-                depth += 1
-                mx = max(mx, depth)
-            elif t[0] == 'close':
-                depth -= 1
-        if mx >= 2:
-            res.nontrivial((st['src'], st['safeMode']))
+        for a in outs_i:
+            if a[0] != 'ok':
+                res.count('not_ok_' + a[0])
+                return
+            res.oracle_checks += 1
+            repl = st.get('htmlReplacement') or DEFAULT_REPLACEMENT
+            strict = st['safeMode'] != 0
+            toks, err = htmlcheck.tokenize(a[1], repl if strict else None, strict=False)
+            if err:
+                res.violation('output does not tokenise: ' + err, case, short(a[1], 600))
+                return
+            err = htmlcheck.balanced(toks)
+            if err:
+                res.violation('unbalanced markup: ' + err, case, short(a[1], 800))
+                return
+            depth = mx = 0
+            for t in toks:
+                if t[0] == 'open' and t[1] not in htmlcheck.VOID:
+                    depth += 1
+                    mx = max(mx, depth)
+                elif t[0] == 'close':
+                    depth -= 1
+            if mx >= 2:
+                res.nontrivial((st['src'], st['safeMode']))
         res.count('mode0' if st['safeMode'] == 0 else 'safe')
 
 
@@ -532,6 +579,24 @@ class C16(Prop):
         while True:
             src = clean(gen.any_source(rng, ctx.repo)).replace('\r', '')
             mode = rng.choice([0, 0, 1, 2, 3, 6, 9, 15])
+            if rng.random() < 0.12:
+                # no reserved character in the source, but backslash-digit sequences (\0 \1 \2, \x00, \u0001 ...) wherever text
+                # flows through string substitution: Block Attributes merged into existing attributes, templates, macro values
+                e = lambda: rng.choice(['\\0', '\\1', '\\2', '\\01', '\\02', '\\00', '\\x00', '\\u0001', '\\g<0>', '\\0/', '$0', '\\\\1'])  # noqa: E731
+                pieces = [
+                    '."color:blue%s; b:%s"\n<div style="a:b">x</div>' % (e(), e()),
+                    '.c1 "w:%s"\n<p class="k" style="z:y;">x</p>' % e(),
+                    "|paragraph| = '<p style=\"x:y\" class=\"q\">|</p>'\n\n.k \"a:%s\"\npara text" % e(),
+                    '.#i%s [title="%s"]\npara' % (rng.randint(1, 99), e()),
+                    "{m} = 'v %s $1 %s'\n\nuse {m|%s} here" % (e(), e(), e()),
+                    "/zz/ = 'r%s'\n\nzz top" % e(),
+                    "~ = '<u title=\"%s\">|</u>'\n\n~q~ text" % e(),
+                    '[cap %s](http://u.v/%s)' % (e(), e()),
+                    '# head %s' % e(),
+                ]
+                s2 = '\n\n'.join(rng.sample(pieces, rng.randint(1, 3)))
+                yield {'kind': 'escapes', 'a': s2, 'b': s2, 'safeMode': rng.choice([0, 0, 3, 9, 11])}
+                continue
             if rng.random() < 0.5:
                 enc = encode_terminators(rng, src.split('\n'))
                 if enc is None:
